@@ -1,4 +1,5 @@
 import Verif.Lemmas.Resources
+import Verif.Lemmas.ResourcesOpen
 /-! # C14 — Failures surface as errors and every opened log reader is closed
 
 Theorems over `Resources.eval`, the model of the open/close protocol and of error propagation
@@ -43,6 +44,40 @@ theorem C14_clean_end_is_not_a_fault (n : Nat) :
   apply no_fault_success
   · rfl
   · simp [Q.hasFault, Sel.hasFault]
+
+/-- opened and closed are the same set of readers after any evaluation from nothing opened -/
+theorem C14_opened_iff_closed (q : Q) (r : Rid) :
+    r ∈ (eval q init).2.opened ↔ r ∈ (eval q init).2.closed :=
+  ⟨C14_no_leak_init q r, C14_closed_sub_opened q r⟩
+
+/-- **which readers a log query opens**: exactly the selected containers whose open does not
+fail — every open is attempted even when another one fails (no cancellation on the first
+failure), and nothing is opened when the pipeline cannot be built or listing fails.  The
+correspondence compares this set (and the closed set) with the readers the fake daemon handed
+out. -/
+theorem C14_log_opened (s : Sel) (r : Rid) :
+    r ∈ (eval (.log s) init).2.opened ↔
+      (s.stageOk = true ∧ s.listFails = false ∧
+        ∃ j, ∃ h : j < s.ctrs.length, r = (0, j) ∧ s.ctrs[j] ≠ .openFail) :=
+  eval_log_opened s r
+
+/-- an invalid stage or a failed listing is reported before any log is opened -/
+theorem C14_early_failure_opens_nothing (s : Sel) (h : s.stageOk = false ∨ s.listFails = true) :
+    (eval (.log s) init).2.opened = [] := by
+  apply List.eq_nil_iff_forall_not_mem.mpr
+  intro r hr
+  have := (eval_log_opened s r).mp hr
+  rcases h with h | h <;> simp [h] at this
+
+/-- with one open failing, the other selected containers are still opened — and therefore closed
+(`C14_opened_iff_closed`): the failure path of `SelectLogs` has readers to clean up -/
+theorem C14_open_failure_closes_the_others (s : Sel) (j : Nat) (hj : j < s.ctrs.length)
+    (hs : s.stageOk = true) (hl : s.listFails = false) (hne : s.ctrs[j] ≠ .openFail) :
+    (0, j) ∈ (eval (.log s) init).2.closed :=
+  (C14_opened_iff_closed _ _).mp ((eval_log_opened s (0, j)).mpr ⟨hs, hl, j, hj, rfl, hne⟩)
+
+-- non-vacuity: open failure in the middle, both neighbours opened and closed
+example : (eval (.log ⟨true, false, [.ok, .openFail, .streamFault]⟩) init).2.closed = [(0, 0), (0, 2)] := by decide
 
 -- non-vacuity: a binary operation over two selections, open failure in the second one
 example : (eval (.binop true (.range ⟨true, false, [.ok, .ok]⟩ true) (.range ⟨true, false, [.ok, .openFail, .ok]⟩ true)) init).1
